@@ -226,10 +226,11 @@ PROPS["C14"]["runners"] = [{"name": "C14", "synctest": True}, {"name": "C14ERR",
 
 hist_prop("C16",
     ["c16_adopt_total", "c16_single_byte_damage_is_undecodable", "c16_truncated_is_undecodable", "c16_purge_keeps_good_records", "c16_adopt_changes_store_only_by_purge", "c16_adopt_of_consistent_store"],
-    ["adopt_connectable (after adoption every record a resend loads exists and decodes) for a store damaged in up to k records is judged on histories (14 damage scenarios x restart x connect), not a theorem",
+    ["AdoptDamaged.v holds for ANY store with ascending keys, byte values, a usable client-identifier record (F15 otherwise) and no PUBREL forged with a valid checksum under a key outside the exactly-once space (rel_in_space; forged_pubrel_bricks is the counterexample; the property excludes forged records); 'completes them' is invariance under all later steps (DInv), not liveness",
+     "after adopting a store with a gap the full invariant OInv' does not hold (leftovers stay in the publish key spaces: leftover_stays); what holds, and is kept by every later step, is DInv: every sequence number of the three windows has a genuine record of the right kind",
      "records abandoned by an adoption (dropped PUBREL range, gaps) stay in the Persistence and are reported again by later adoptions until overwritten"],
     "C16 generator: a session with transfers at every stage (3 at-least-once PUBLISH, PUBREL, 3 exactly-once PUBLISH, reception marker), then the Persistence is rewritten (byte flip, truncation, removal, stray entries, empty leftover; on PUBLISH, PUBREL, marker, client-identifier records; one or two records), then AdoptSession, connect, duplicates, new publishes, another restart; plus random histories; every scenario also on the library's FileSystem store (scratch directory), every third random history too.",
-    ALLSTATES + "For ANY Persistence content AdoptSession terminates, deletes and counts every undecodable record and keeps the rest (c16_adopt_total); altered or truncated records are always undecodable (C15). c16_ok judges the trace: adoption is fatal only for Persistence failures or a pending count above the limit; after adoption no ReadSlices fails with a class-less error (missing/corrupt own record). Known finding F15 (client identifier record damaged or removed: connect fails / empty identifier) is recorded, not repaired.",
+    ALLSTATES + "For ANY Persistence content AdoptSession terminates, deletes and counts every undecodable record and keeps the rest (c16_adopt_total); altered or truncated records are always undecodable (C15). After adopting a damaged store (AdoptDamaged.v): the returned client satisfies DInv and keeps it through every later history (c16_adopted_inv, c16_dinv_run); connect never meets a missing or corrupt record and in an accepting world writes CONNECT followed by exactly the surviving stored packets in order (c16_adopted_connects); a new publish never overwrites a record of a window (c16_adopted_accepts_new); every marker left decodes, so reception never fails on a corrupt record (c16_adopted_receives). c16_ok judges the trace: adoption is fatal only for Persistence failures or a pending count above the limit; after adoption no ReadSlices fails with a class-less error (missing/corrupt own record). Known finding F15 (client identifier record damaged or removed: connect fails / empty identifier) is recorded, not repaired.",
     "Trusted: Coq kernel; Session model; harness (store rewrites are applied to the model's map as well).",
     "Coq proof of totality over arbitrary stores + model/implementation correspondence on damage scenarios")
 
@@ -301,6 +302,7 @@ hist_prop("C10",
      "a request blocked in lockWrite spins (no blocking) while the write semaphore is pending and Online is still released, until ReadSlices notices the failure: CPU is burnt but the property's wording holds"],
     "C10 generator: general histories + ReadBackoff measured in virtual time; second runner SYNC (concurrent runs).",
     ALLSTATES + "Every error while reading/handling leaves the connection (close, offline, pending released) and the next ReadSlices redials; a failed attempt releases waiters with ErrDown; the read routine's own writes never wait for a connect. " + L3TXT +
+    "ReadBackoff (BackoffBounds.v): the channel is nil exactly for the closed class (no BigMessage pending), 1000 ms for a Persistence error, the maximum for a refusal, otherwise the ramp-up min(max(2w, min), max) within [ReconnectWaitMin, ReconnectWaitMax], restarting at the minimum after a successful connect; no I/O. "
     "c10_ok judges sequential traces: redial after every offline return, pending requests released, ReadBackoff within [ReconnectWaitMin, ReconnectWaitMax] (exactly 1 s for Persistence errors, the maximum for refusals, nil only for ErrClosed).",
     "Trusted: Coq kernel; Session and Sync models; harness; fair Go scheduler. Liveness is sampled (watchdogs: one virtual hour, 20 s real time for spinning calls).",
     "Coq proof over all states/scripts (sequential) + monitor trace inclusion on concurrent runs")
@@ -310,10 +312,12 @@ PROPS["C10"]["runners"] = [{"name": "C10", "synctest": True}, {"name": "SYNC10",
 hist_prop("C11",
     ["c11_completion_classes", "c11_quit", "c11_canceled_only_by_quit", "c11_subscribe_outcomes", "c11_ping_outcomes", "c11_suback_count_mismatch", "c11_offline_releases"],
     ["'no call waits forever' is refuted by the recorded finding F7 (ping slot taken by another Ping's release path): reproduced on every run with the hooks as yield points, reported as KNOWN-FINDING",
+     "closed world ReqWorld.v (slim client commuting with Session.v's request functions, conforming or hostile broker, one FIFO connection, Break/Quit/Close): correlation, at-most-once return and bounded completion are theorems of the SEQUENTIAL request machine; callers blocked in lockWrite that continue after a successful connect, Publish calls and adoption are outside it; the real client's interleavings are tied by the concurrent runs and gated scenarios",
+     "recorded finding F26: 'no response is handed to another caller' is false after a request was abandoned by quit: the late PINGRESP of an abandoned Ping completes the next Ping (no identifier in PINGRESP); for Subscribe/Unsubscribe the same needs 8192 further identifier assignments (c11_response_handed_to_another_caller: reachable with a conforming broker; reproduced on the real client); every other delivered answer completes its own request or nobody (c11_answer_own_or_late)",
      "termination of Subscribe/Unsubscribe under all interleavings is not a theorem (mutex-protected map not in the L3 monitor)"],
     "C11 generator: Subscribe/Unsubscribe/Ping with SUBACK codes (failures in every position), late/duplicate/lost responses, quit before/after submission, connection loss and Close during the wait; runner SYNCF7 adds the F7 schedule and concurrent runs.",
-    ALLSTATES + "A waiting request completes only with the documented classes; quit gives ErrCanceled/ErrAbandoned and releases the slot; a count-mismatch SUBACK fails that very request. c11_ok judges traces: every completion is justified by the response carrying that request's own packet identifier (codes mapped to its filters in order). " + L3TXT,
-    "Trusted: Coq kernel; Session and Sync models; harness. F7 is a genuine defect recorded in known_findings.txt.",
+    ALLSTATES + "A waiting request completes only with the documented classes; quit gives ErrCanceled/ErrAbandoned and releases the slot; a count-mismatch SUBACK fails that very request. Closed world (ReqWorld.v), any interleaving: a SUBACK/UNSUBACK for pid makes nobody return or exactly the unique holder of pid, with the failed filters computed from that request's own filter list (c11_suback_correlation); one packet completes at most one request; every request returns at most once, with one documented outcome (c11_returns_at_most_once); with a conforming broker and no abandoned request every delivered answer completes exactly the request it answers (c11_conforming_exact); connection loss settles all waiting requests in one step, Close completes them all, and a fault-free run of at most 2|c2b|+|b2c| steps leaves nobody waiting (c11_answer_run_exists). c11_ok judges traces: every completion is justified by the response carrying that request's own packet identifier (codes mapped to its filters in order). " + L3TXT,
+    "Trusted: Coq kernel; Session and Sync models; harness; the broker/connection definitions of ReqWorld.v. F7 and F26 are genuine defects recorded in known_findings.txt.",
     "Coq proof over all states/scripts (sequential) + monitor trace inclusion + scheduled reproduction of the recorded finding")
 PROPS["C11"]["modules"] = ["HistChecks", "SyncCheck"]
 PROPS["C11"]["runners"] = [{"name": "C11", "synctest": True}, {"name": "SYNCF7", "synctest": True}]
